@@ -142,3 +142,78 @@ Lemma wf_id_example :
   wf_id (IdService w_td "default" "default" "dc1" "web") /\ wf_id (IdAgent w_td "default" "dc1" "n1") /\
   wf_id (IdGateway w_td "default" "dc1") /\ wf_id (IdServer w_td "dc1").
 Proof. vm_compute. repeat split. Qed.
+
+(* ------------------------------------------------------------------ witnesses added after the audit *)
+
+(* auto-config: the agent identity of another datacenter is issued (no datacenter test on that path) *)
+Lemma autoconfig_datacenter_refuted :
+  exists e node c s crt s' u host ap dc,
+    autoconfig_sign e node c s = Ok (crt, s') /\ csr_uris c = [u] /\
+    parse_cert_uri u = Ok (IdAgent host ap dc node) /\ c_uris crt = [u] /\ dc <> e_dc e.
+Proof.
+  exists w_env, "n1", (w_csr w_agent_dc2), empty_store, (Cert [w_agent_dc2] [] [] false 1),
+         (incr_serial empty_store), w_agent_dc2, w_td, "default", "dc2".
+  repeat split; try (vm_compute; reflexivity). discriminate.
+Qed.
+
+(* auto-config inside its datacenter: issued, dummy host coerced *)
+Lemma autoconfig_example :
+  autoconfig_sign w_env "n1" (w_csr w_agent_dummy) empty_store =
+    Ok (Cert [w_agent_td] [] [] false 1, incr_serial empty_store) /\
+  autoconfig_sign w_env "n2" (w_csr w_agent_dummy) empty_store = Err EWrongNode /\
+  autoconfig_sign w_env "web" (w_csr w_web) empty_store = Err ENotAgent.
+Proof. vm_compute. repeat split. Qed.
+
+(* a service:write token obtains a leaf that also carries the DNS name of the servers *)
+Definition w_csr_server_san : csr := Csr [w_web] ["server.dc1.consul"] [] 0.
+
+Lemma server_dns_san_refuted :
+  exists e az c s crt s' u svc,
+    sign_request e az c s = Ok (crt, s') /\ csr_uris c = [u] /\
+    parse_cert_uri u = Ok (IdService w_td "default" "default" "dc1" svc) /\
+    az_acl_write az = false /\ In "server.dc1.consul" (c_dns crt).
+Proof.
+  exists w_env, w_az, w_csr_server_san, empty_store, (Cert [w_web] ["server.dc1.consul"] [] false 1),
+         (incr_serial empty_store), w_web, "web".
+  repeat split; try (vm_compute; reflexivity). left. reflexivity.
+Qed.
+
+(* an agent identity in a partition (the community edition has none) is issued verbatim *)
+Definition w_agent_ap : url := Url "spiffe" w_td "/ap/foo/agent/client/dc/dc1/id/n1" "" true.
+
+Lemma agent_partition_refuted :
+  exists e az c s crt s' u host ap dc agent,
+    sign_request e az c s = Ok (crt, s') /\ csr_uris c = [u] /\ c_uris crt = [u] /\
+    parse_cert_uri u = Ok (IdAgent host ap dc agent) /\ ap <> "default".
+Proof.
+  exists w_env, w_az, (w_csr w_agent_ap), empty_store, (Cert [w_agent_ap] [] [] false 1),
+         (incr_serial empty_store), w_agent_ap, w_td, "foo", "dc1", "n1".
+  repeat split; try (vm_compute; reflexivity). discriminate.
+Qed.
+
+(* a URI with a query / fragment / userinfo (not a SPIFFE ID) is issued verbatim *)
+Definition w_web_query : url := Url "spiffe" w_td "/ns/default/dc/dc1/svc/web" "" false.
+
+Lemma decorated_uri_refuted :
+  exists e az c s crt s' u,
+    sign_request e az c s = Ok (crt, s') /\ csr_uris c = [u] /\ c_uris crt = [u] /\ u_plain u = false /\
+    u_plain (reparse u) = false.
+Proof.
+  exists w_env, w_az, (w_csr w_web_query), empty_store, (Cert [w_web_query] [] [] false 1),
+         (incr_serial empty_store), w_web_query.
+  repeat split; vm_compute; reflexivity.
+Qed.
+
+(* both arms of the conditional configuration update *)
+Lemma config_cas_example :
+  let s := fst (step empty_store 3 (OpSetConfig (ConfigIn "consul" "c1" 0 7))) in
+  snd (step s 5 (OpSetConfig (ConfigIn "consul" "c1" 3 8))) = OBool true /\
+  step s 5 (OpSetConfig (ConfigIn "consul" "c1" 2 8)) = (s, OErr EConfigCAS).
+Proof. vm_compute. split; reflexivity. Qed.
+
+(* the trust domain follows the stored ClusterID *)
+Lemma store_env_example :
+  let s := fst (step empty_store 3 (OpSetConfig (ConfigIn "consul" "11111111-2222-3333-4444-555555555555" 0 7))) in
+  store_env "dc1" s = Some w_env /\
+  store_env "dc1" (fst (step s 4 (OpSetConfig (ConfigIn "consul" "c2" 0 7)))) = Some (CaEnv "dc1" "c2").
+Proof. vm_compute. split; reflexivity. Qed.
